@@ -27,7 +27,7 @@ func init() {
 func optionInput(r *mon.Rng, kind string) string {
 	var b strings.Builder
 	frags := []string{"ab", "x1", "12", "3.5", "1e5", ".5", "-7", "'s t'", "'it''s'", "\"w\"", "\"\"", "''", " ", "  ", "\t", "\n", "\r\n", "\n\r", "\r",
-		"/*c*/", "/* a\nb */", "# c\n", "#c", "//c\n", "😀", "𝄞", "￿", "<=", "<>", ">>", "!=", "(", ")", ",", "+", "-", ".", "/", "{{", "}}", "{{{", "}}}", "#", "^", "!", "é", "ш", "€", "AND", "not", ";", "\"a,b\"", "\"a\"\"b\"", "'open", "/*open", "\"}}\"", "'}}}'", "/***/", "/* a **/", "\u00a0", "\u0085", "\u2028", "\u007f", "\u3000", "\v", "\f"}
+		"/*c*/", "/* a\nb */", "# c\n", "#c", "//c\n", "😀", "𝄞", "￿", "<=", "<>", ">>", "!=", "(", ")", ",", "+", "-", ".", "/", "{{", "}}", "{{{", "}}}", "#", "^", "!", "é", "ш", "€", "AND", "not", ";", "\"a,b\"", "\"a\"\"b\"", "'open", "/*open", "\"}}\"", "'}}}'", "{{!", "{{ ! it's", "!", "/***/", "/* a **/", "\u00a0", "\u0085", "\u2028", "\u007f", "\u3000", "\v", "\f"}
 	n := 1 + r.Intn(10)
 	for i := 0; i < n; i++ {
 		b.WriteString(mon.Pick(r, frags))
@@ -38,6 +38,7 @@ func optionInput(r *mon.Rng, kind string) string {
 var optionPatterns = []string{
 	"a /*c*/ b", "a /*c*/12", "/*c*/12", "/*c*/ш", "/*c*/😀", " /*c*/ ", "a 😀 b", "😀😀", "a😀", "😀 😀", " 😀 ", "1😀2", "/*a*//*b*/", "/*a*/ /*b*/", "'q'/*c*/'r'", "/*c*/'q'",
 	"# c\n12", "a # c\n b", " # c\n ", "#a\n#b\n", "a ￿ b", "￿12", "12￿", "￿￿ x", "/*c*/￿", "😀/*c*/", "  a  ", "\t\n 1 \r\n", "'it''s' \"x\"\"y\"",
+	"{{😀 ! c }}x", "{{ 😀!x}}", "{{! it's }}a{{b}}'c", "{{!'}}x'y", "{{ !\"q }}{{a}}\"", "{{!}}", "{{ ! }}", "a{{!c",
 	"{{ \"}}\" x }}", "{{ '}}}' y }}{{z}}", "a{{ \"}}\" }}b{{c}}", "/* a **/ x", "/***/ y /* b */ z", "/** d **/z", "a \u00a0b", " \u0085x", "\t\u2028y", " \u007fz", "\n\u3000w",
 	"\"x\",'y',\"a\"\"b\"", "{{ a }}", "x{{#if a}} y {{/if}}z", "{{ 😀 }}", "{{a}} 😀 {{b}}", "a,\"b 😀\",c\r\n1,2,3", "a\n\nb", "\r\r\n\n\r", "1 2\n3.5 4\r\n-5", "1/*c*/2", "1 /*c*/ 2.5e3", "a//c\nb", "a // c\n b",
 }
